@@ -100,6 +100,8 @@ NOT_APPLICABLE = {}
 def build():
     checks = []
     enabled = set(open(os.path.join(VERIF, "vtlmc", "enabled.txt")).read().split())
+    # thorough tiers are registered only after a complete run against /repo that exited 0 (ids in thorough_ok.txt)
+    thorough_ok = set(open(os.path.join(VERIF, "vtlmc", "thorough_ok.txt")).read().split())
     for pid, (cat, tech, text, note, ref, thorough) in sorted(CHECKS.items()):
         if pid not in enabled:
             continue
@@ -113,7 +115,7 @@ def build():
             "level_note": note,
             "technique": tech,
         }
-        if thorough:
+        if thorough and pid in thorough_ok:
             c["thorough_cmd"] = "./check %s --tier thorough" % pid
         checks.append(c)
     props = [json.loads(l)["id"] for l in open(os.path.join(VERIF, "properties.jsonl"))]
